@@ -5,10 +5,14 @@ def register(PROPS):
     G = ['mode=grammar', '--case-timeout', '60']
     H = ['mode=hostile', '--case-timeout', '60']
     F = ['mode=fillers', '--case-timeout', '60']
+    MQ = ['rmenu=4', 'xmenu=3']
+    MT = ['rmenu=6', 'xmenu=4']
     PROPS['C09'] = {
         'level': 'exploration',
         'technique': 'bounded exhaustive enumeration of a rule grammar plus a hostile layer under AddressSanitizer + bounds checking, '
-                     'with a CPU-time budget per call as termination oracle and a guard page behind the fillers\' buffer',
+                     'with a CPU-time budget per call as termination oracle and a guard page behind the fillers\' buffer; events with several '
+                     'recurrence and exception sources driven through drain / early release / clone scripts under ASan and, in the plain build, on a '
+                     'guarded heap (guard zones, poisoned released blocks, audit after every script)',
         'claim': 'Every rule of (a) the C01 grammar under a reduced extension menu from unsynchronised and synchronised DTSTARTs and (b) a hostile '
                  'layer (time-of-day products of 63..129, 1440, 3600 and 86400 instants per day; INTERVAL 1..13, 59..61, 1000, 2^31-1, 2^32 and '
                  'unit multiples, alone and against one BY-part on and off DTSTART for every FREQ; ordinals +-53 and +-5; BYMONTHDAY +-31/30 in '
@@ -16,7 +20,18 @@ def register(PROPS):
                  'end of 2099, in 2105, 4095, 9999, on Feb 30, in month 13, at hour 24, on day 0), each in three embeddings (alone, with an RDATE, '
                  'two RRULEs), is parsed by the real parser and asked for 300 occurrences; the seven fillers are also called directly like '
                  'refill() does on a 128-instant buffer that ends at an inaccessible page.  Checked: no sanitizer report or fault, fillers return '
-                 '<= 64, every call answers within the CPU budget, a terminated rule stops yielding, a rule whose RFC set is empty yields nothing.',
+                 '<= 64, every call answers within the CPU budget, a terminated rule stops yielding, a rule whose RFC set is empty yields nothing.  '
+                 '(c) Events with several sources at once (multirule): DTSTART 2024-03-01T10:00Z with every ordered selection of 0..3 finite rules '
+                 'of a menu as RRULEs, four RDATE variants (none, one date, three unsorted dates, two lines), every ordered selection of 0..3 '
+                 'finite rules of a second menu as EXRULEs and three EXDATE variants (none, one date, two lines), each freshly parsed event run '
+                 'through the scripts: asked to end-of-stream and twice more, then released; released after 0, 1, 2, 5 occurrences (what cancelling '
+                 'or replacing a task does); cloned after 0 or 2 occurrences with the clone drained and released before the original, after it, '
+                 'or both released undrained.  Checked: no sanitizer report or fault (asan variant); in the plain variant every block the library '
+                 'obtains during a script lies in a private arena between guard zones of 5120 bytes and stays poisoned once released, and after the '
+                 'script no guard zone and no released block has changed, nothing was released twice or released without having been handed out; '
+                 'the stream answers end-of-stream after at most as many occurrences as all sources list together and stays ended; the occurrences '
+                 'are (union of what each RRULE yields alone plus the RDATEs) minus (what each EXRULE yields alone plus the EXDATEs); a clone '
+                 'delivers what the original delivers from where it was taken.',
         'note': 'Run under -fsanitize=address,bounds.  Budget: a call that has not answered after 0.25 s of CPU is a hang if the driver can prove '
                 'the rule\'s set empty (INTERVAL steps never meet the time/weekday filters over a full cycle, or no calendar day satisfies the '
                 'date parts over 400 years); otherwise the case is run again with 3 s (quick 2 s) before it is called a hang.  After the first '
@@ -24,16 +39,19 @@ def register(PROPS):
                 'termination of the same rule and DTSTART is judged through its stream.  "Bounded work" is judged against these budgets, not proven.',
         'rule': 'case = one event text (or one direct filler sequence); a supervised unit is (rule, extension, DTSTART) resp. (hostile rule, '
                 'DTSTART) with its terminations/embeddings; all texts distinct; non-trivial = the unterminated stream / filler sequence '
-                'delivered >= 2 instants',
+                'delivered >= 2 instants; multirule: case = one event with all its scripts, an evaluation = one script on a freshly parsed '
+                'event, non-trivial = the event has >= 2 occurrences',
         'bound': {
             'quick': 'grammar: BY-part subsets <= 1, INTERVAL {1,2}, 4 anchors (+ derived synchronised DTSTART), extensions {none, SHIFT=1B, SHIFT=-40, '
                      'BYEASTER=-2, SCALE=HIJRI.IA, TZID=Europe/Berlin}, terminations {none, COUNT 65, UNTIL on 4th}; hostile: reduced INTERVAL '
                      'list {2,7,13,60,1000,2^31-1,2^32,24,168,1440,86400}, product factorisations with a factor 1, 2 DTSTARTs; fillers: hostile '
-                     'rules + grammar rules of size <= 1',
+                     'rules + grammar rules of size <= 1; multirule: RRULE menu of 4 (YEARLY COUNT 3, WEEKLY UNTIL, DAILY;INTERVAL=3 COUNT 70, '
+                     'DAILY COUNT 1), EXRULE menu of 3, ordered selections of <= 3 each (41 x 16) x 4 RDATE x 3 EXDATE variants less those without RRULE and RDATE = 7824 events x 11 scripts',
             'thorough': 'grammar (ASan): subsets <= 1, INTERVAL {1,2,7}, 6 anchors, every single extension but the table calendars; grammar-pairs '
                         '(plain build, clauses hang / exhausted-yields / empty-yields only): subsets <= 2, INTERVAL {1,2}, 4 anchors, reduced '
                         'extension menu; hostile: full lists, 3 DTSTARTs, COUNT=130 in every embedding; fillers: hostile rules + grammar rules of '
-                        'size <= 2, 6 anchors',
+                        'size <= 2, 6 anchors; multirule: RRULE menu of 6 (+ MONTHLY COUNT 4, HOURLY;INTERVAL=5 COUNT 4), EXRULE menu of 4, '
+                        'ordered selections of <= 3 each (157 x 41) x 4 x 3 less those without RRULE and RDATE = 77121 events x 11 scripts',
         },
         'drivers': [
             D('c09_hostile', H + ['hquick=1', 'b2=2'], H, label='hostile', variant='asan'),
@@ -43,6 +61,8 @@ def register(PROPS):
               tiers=('thorough',)),
             D('c09_hostile', F + ['hquick=1', 'maxparts=1', 'intervals=1,2', 'anchors=4'],
               F + ['maxparts=2', 'intervals=1,2,7', 'anchors=6', '--deadline', '100'], label='fillers', variant='asan'),
+            D('c09_multirule', MQ, MT, label='multirule', variant='asan'),
+            D('c09_multirule', MQ, MT, label='multirule-guarded-heap'),
         ],
         'assumptions': ['calendar years up to 2099: a stream is asked no further once it has delivered an occurrence after 2099 (the code counts leap '
                         'years as y % 4 and its weekday bookkeeping drifts after 2100-02-28)',
@@ -50,5 +70,14 @@ def register(PROPS):
                         'clause exhausted-yields / empty-yields only for plain rules of the C01 grammar (synchronised DTSTART resp. reference set '
                         'empty up to 2099 / 9 years / 400 days / 10 days for FREQ >= DAILY / HOURLY / MINUTELY / SECONDLY); DTSTART itself is tolerated '
                         'as an answer of an empty set',
-                        'INTERVAL=4294967296 (1*DIGIT, read as 0 by the parser) is included as syntactically acceptable'],
+                        'INTERVAL=4294967296 (1*DIGIT, read as 0 by the parser) is included as syntactically acceptable',
+                        'multirule: all menu rules are finite and synchronised with DTSTART, so whether DTSTART belongs to the set does not arise; '
+                        'for events without an RRULE the DTSTART instant is left out of the comparison; the constituent sets of the rules are '
+                        'read through the same library from single-rule events (differential), the date lists from the driver\'s own table',
+                        'multirule, plain variant: malloc/calloc/realloc/free of the driver executable (hence of the library compiled into it) '
+                        'are replaced by the guarded arena while a script runs; a stray access is seen if it is a WRITE within 5120 bytes of a block '
+                        'of that script or into a released one; reads and farther writes are the asan variant\'s business',
+                        'multirule, asan variant: once three events of one shape (counts of RRULEs/EXRULEs as 0, 1, 2+, RDATE/EXDATE present or '
+                        'not) have killed the worker in one shard, the remaining events of that shape are left out and counted '
+                        '(left_out_after_repeated_crashes); on a tree without such a report nothing is left out'],
     }
